@@ -115,6 +115,21 @@ CLAIMS["C17"] = (
     "is outside this check.",
     "DESIGN.md §4 C17")
 
+CLAIMS["C06"] = (
+    "keyword/source agreement of Solution assembly, path rule over the exchange scan (swap/evaluate/accept/undo pairing, truthful incumbent), "
+    "creation-without-replacement and mask rules for subset operators, view-vs-copy classification, def-use trace of the sorting pipeline (ast)",
+    "Decides the structural part: all 16 optimisers assemble their Solution from the same-named problem attributes and from X/F/G/H or the "
+    "incumbent tuple without cross-wiring; in both hill-climbers every scan path is swap / prob.evalfn(incumbent) / lexicographic (violation, score) "
+    "acceptance / swap back, the applied exchange is the recorded (best_i, best_j) and the reported triple is the evaluation taken while it was in place, "
+    "the scan covers every member x unused-candidate pair and the search stops only after a scan without improvement; every site that creates a subset "
+    "draws without replacement or takes distinct argsort positions, the complement is not-in1d, crossover pools are A\\B / B\\A written back through "
+    "their own masks on a copy; arrays exchanged in place are fresh (never views of prob.*); the sorting optimiser scores members singly, sorts ascending "
+    "on axis 0, takes [0:ndecn], maps through decn_space and re-evaluates; integer operators round then cast. Feasibility / non-domination / optimality of "
+    "what pymoo's own operators return are runtime search results and are NOT decided.",
+    "Trusted: pymoo result slots X/F/G/H, numpy choice/argsort/isin semantics. The hill-climber value rules are written against the code's own naming "
+    "scheme (gbest_*/best_*/prop_*); a rewrite with other names is reported as unrecognised.",
+    "DESIGN.md §4 C06")
+
 NOT_YET = "rule set not built yet (build in progress; see DESIGN.md §8)"
 NA = {}
 
